@@ -125,8 +125,13 @@ def documented_extrema(sig, fs, f_range, boundary=0, first_extrema='peak', filte
     return p, t, info
 
 
-def cycles_domain(sig, fs, f_range, center, fek):
-    """C01 domain predicate.  Returns (in_domain, reference peaks, troughs, info)."""
+def cycles_domain(sig, fs, f_range, center, fek, other_filter_kwargs=()):
+    """C01 domain predicate.  Returns (in_domain, reference peaks, troughs, info).
+
+    "Longer than the narrowband filter" is read as longer than every FIR filter the call designs: the
+    extrema filter (find_extrema_kwargs), the three-cycle amplitude filter of band_amp and, for the
+    amplitude method, the detector's filter (burst_kwargs['filter_kwargs'])."""
+    from neurodsp.filt.fir import compute_filter_length
     fek = dict(fek or {})
     fk = fek.get('filter_kwargs')
     if fek == {} or 'filter_kwargs' not in fek:
@@ -143,9 +148,18 @@ def cycles_domain(sig, fs, f_range, center, fek):
     if p is None:
         return False, None, None, {'why': 'no-extrema'}
     info['why'] = ''
-    ok = len(p) >= 4 and len(t) >= 4 and info['finite'] and len(s) > info['filt_len']
+    longest = info['filt_len']
+    for okw in [{'n_cycles': 3}] + [dict(o) for o in other_filter_kwargs if o is not None]:
+        try:
+            n_sec = okw.get('n_seconds')
+            longest = max(longest, compute_filter_length(fs, 'bandpass', f_range[0], f_range[1], n_seconds=n_sec,
+                                                         n_cycles=okw.get('n_cycles', None if n_sec is not None else 3)))
+        except Exception:
+            pass
+    info['longest_filter'] = longest
+    ok = len(p) >= 4 and len(t) >= 4 and info['finite'] and len(s) > longest
     if not ok:
-        info['why'] = 'fewer-than-3-oscillations'
+        info['why'] = 'fewer-than-3-oscillations' if len(s) > longest else 'signal-not-longer-than-a-filter'
     return ok, p, t, info
 
 
